@@ -14,6 +14,11 @@ structure SendOK (st st' : State) (asset : String) (amount : Int) (new : List Po
   sum : amountSum new + kept = amount
   keptNonneg : 0 ≤ kept
 
+/-- `kept` is what a run of the destination left of some non-negative funding. -/
+def KeptWitness (env : Env) (dst : Dest) (kept : Int) : Prop :=
+  ∃ (f : Funding) (st0 : State) (rem : List Part) (st1 : State),
+    partsNonneg f.parts ∧ evalDest env f.asset dst f.parts st0 = .ok (rem, st1) ∧ kept = total rem
+
 theorem SendOK.ofFinish {f : Funding} {st0 st st' : State} {new : List Posting} {kept : Int}
     (hn : partsNonneg f.parts) (hfin : FinishOK f st st' new kept) (hp : st.postings = st0.postings) :
     SendOK st0 st' f.asset (total f.parts) new kept where
@@ -28,7 +33,7 @@ theorem SendOK.ofFinish {f : Funding} {st0 st st' : State} {new : List Posting} 
 theorem send_src_ok {env : Env} {mon : Expr} {s : Source} {dst : Dest} {st st' : State}
     (h : evalStmt cfg env (.send mon (.src s) dst) st = .ok st') :
     ∃ asset amt new kept, evalMonetary env mon = .ok (asset, some amt) ∧
-      SendOK st st' asset amt new kept := by
+      SendOK st st' asset amt new kept ∧ KeptWitness env dst kept := by
   simp only [evalStmt] at h
   split at h
   · cases h
@@ -45,11 +50,11 @@ theorem send_src_ok {env : Env} {mon : Expr} {s : Source} {dst : Dest} {st st' :
         · cases h
         · rename_i r b2 ht
           obtain ⟨t, tsum⟩ := takeFromSource_ok ht
-          obtain ⟨new, rem, fin, _⟩ := finishSend_ok h
+          obtain ⟨new, rem, fin, st1, hd⟩ := finishSend_ok h
           have e := tsum hn0
           have ok := SendOK.ofFinish (st0 := st) (t.nonneg hn0) fin rfl
           rw [t.assetR] at ok
-          refine ⟨m.1, total r.parts, new, total rem, ?_, ok⟩
+          refine ⟨m.1, total r.parts, new, total rem, ?_, ok, ⟨r, _, rem, st1, t.nonneg hn0, hd, rfl⟩⟩
           rw [hm]
           obtain ⟨m1, m2⟩ := m
           simp only at e
@@ -62,7 +67,7 @@ theorem sendAll_ok {env : Env} {assetE : Expr} {s : Source} {dst : Dest} {st st'
     (h : evalStmt cfg env (.sendAll assetE (.src s) dst) st = .ok st') :
     ∃ asset f b1 new kept, evalAssetE env assetE = .ok asset ∧
       evalSource cfg env asset s st.bal = .ok (f, b1) ∧
-      SendOK st st' f.asset (total f.parts) new kept := by
+      SendOK st st' f.asset (total f.parts) new kept ∧ KeptWitness env dst kept := by
   simp only [evalStmt] at h
   split at h
   · cases h
@@ -72,8 +77,9 @@ theorem sendAll_ok {env : Env} {assetE : Expr} {s : Source} {dst : Dest} {st st'
     · rename_i f b1 hs
       obtain ⟨i1, _⟩ := evalSource_ok cfg env asset s st.bal f b1 hs
       have hn0 : partsNonneg f.parts := i1.nonneg f (by simp)
-      obtain ⟨new, rem, fin, _⟩ := finishSend_ok h
-      exact ⟨asset, f, b1, new, total rem, ha, hs, SendOK.ofFinish (st0 := st) hn0 fin rfl⟩
+      obtain ⟨new, rem, fin, st1, hd⟩ := finishSend_ok h
+      exact ⟨asset, f, b1, new, total rem, ha, hs, SendOK.ofFinish (st0 := st) hn0 fin rfl,
+        ⟨f, _, rem, st1, hn0, hd, rfl⟩⟩
 
 theorem allocate_length' (a : List Rat) (amt : Int) : (allocate a amt).length = a.length :=
   Ledger.C24.allocate_length a amt
@@ -124,7 +130,7 @@ theorem send_allot_ok {env : Env} (henv : EnvGood env) {ds : Decls} {mon : Expr}
     {dst : Dest} {st st' : State} (hc : checkAllotment ds items.portions = .ok ())
     (h : evalStmt cfg env (.send mon (.allot items) dst) st = .ok st') :
     ∃ asset amt new kept, evalMonetary env mon = .ok (asset, some amt) ∧
-      SendOK st st' asset amt new kept := by
+      SendOK st st' asset amt new kept ∧ KeptWitness env dst kept := by
   simp only [evalStmt] at h
   split at h
   · cases h
@@ -146,7 +152,8 @@ theorem send_allot_ok {env : Env} (henv : EnvGood env) {ds : Decls} {mon : Expr}
             · cases h
             · rename_i f hasm
               obtain ⟨_, a2, a3, a4⟩ := assemble_ok hasm
-              obtain ⟨new, rem, fin, _⟩ := finishSend_ok h
+              obtain ⟨new, rem, fin, st1, hd⟩ := finishSend_ok h
+              have hw : KeptWitness env dst (total rem) := ⟨f, _, rem, st1, a2 i1.nonneg, hd, rfl⟩
               have ok := SendOK.ofFinish (st0 := st) (a2 i1.nonneg) fin rfl
               have hsum : al.sum = 1 := makeAllotment_sum_one henv hc hal
               have hlen : (allocate al amt).length = items.length := by
@@ -160,7 +167,7 @@ theorem send_allot_ok {env : Env} (henv : EnvGood env) {ds : Decls} {mon : Expr}
                   have := a3 g (by simp)
                   rw [← this]; exact i2 g (by simp)
               rw [htot, hasset] at ok
-              refine ⟨m.1, amt, new, total rem, ?_, ok⟩
+              refine ⟨m.1, amt, new, total rem, ?_, ok, hw⟩
               rw [hm]
               have h2 : m.2 = some amt := by
                 cases hm2 : m.2 with
